@@ -416,8 +416,7 @@ impl<Id: EntityId> PropertyStorage<Id> {
     ) -> bool {
         let columns = self.columns.read();
         columns.get(key).map_or(true, |col| {
-            col.zone_map()
-                .might_contain_range(min, max, min_inclusive, max_inclusive)
+            col.might_match_range(min, max, min_inclusive, max_inclusive)
         }) // No column = assume might match (conservative)
     }
 
@@ -647,11 +646,18 @@ impl<Id: EntityId> PropertyColumn<Id> {
         // Update min
         match &self.zone_map.min {
             None => self.zone_map.min = Some(value.clone()),
-            Some(current) => match compare_values(value, current) {
-                Some(Ordering::Less) => self.zone_map.min = Some(value.clone()),
-                Some(_) => {}
-                None => self.zone_map_mixed = true,
-            },
+            Some(current) => {
+                // Integers next to floats compare through a lossy conversion, which is
+                // not transitive above 2^53: min/max do not bound such a column either
+                if std::mem::discriminant(value) != std::mem::discriminant(current) {
+                    self.zone_map_mixed = true;
+                }
+                match compare_values(value, current) {
+                    Some(Ordering::Less) => self.zone_map.min = Some(value.clone()),
+                    Some(_) => {}
+                    None => self.zone_map_mixed = true,
+                }
+            }
         }
 
         // Update max
@@ -1008,15 +1014,39 @@ impl<Id: EntityId> PropertyColumn<Id> {
             return true;
         }
 
+        // min/max say nothing about values that do not compare with them (mixed
+        // types, NaN, integers next to floats): no pruning on such a column
+        if self.zone_map_mixed {
+            return true;
+        }
+
         match op {
-            CompareOp::Eq => self.zone_map.might_contain_equal(value),
+            CompareOp::Eq => match value {
+                // Filters compare numbers with a tolerance (|a - b| < f64::EPSILON),
+                // so the value to look for is the interval around the literal
+                Value::Int64(_) | Value::Float64(_) => {
+                    let v = match value {
+                        Value::Int64(i) => *i as f64,
+                        Value::Float64(f) => *f,
+                        _ => unreachable!(),
+                    };
+                    if v.is_nan() {
+                        return true;
+                    }
+                    let lower = Value::Float64(v - f64::EPSILON);
+                    let upper = Value::Float64(v + f64::EPSILON);
+                    self.zone_map
+                        .might_contain_range(Some(&lower), Some(&upper), true, true)
+                }
+                _ => self.zone_map.might_contain_equal(value),
+            },
             CompareOp::Ne => {
-                // Can only skip if all values are equal to the value
-                // (which means min == max == value), and min/max only speak
-                // for the values that compare with them
-                if self.zone_map_mixed {
+                // A stored null is not equal to the value either
+                if self.zone_map.null_count > 0 {
                     return true;
                 }
+                // Can only skip if all values are equal to the value
+                // (which means min == max == value)
                 match (&self.zone_map.min, &self.zone_map.max) {
                     (Some(min), Some(max)) => {
                         !(compare_values(min, value) == Some(Ordering::Equal)
@@ -1030,6 +1060,22 @@ impl<Id: EntityId> PropertyColumn<Id> {
             CompareOp::Gt => self.zone_map.might_contain_greater_than(value, false),
             CompareOp::Ge => self.zone_map.might_contain_greater_than(value, true),
         }
+    }
+
+    /// Checks if a range predicate might match any values (using the zone map).
+    #[must_use]
+    pub fn might_match_range(
+        &self,
+        min: Option<&Value>,
+        max: Option<&Value>,
+        min_inclusive: bool,
+        max_inclusive: bool,
+    ) -> bool {
+        if self.zone_map_dirty || self.zone_map_mixed {
+            return true;
+        }
+        self.zone_map
+            .might_contain_range(min, max, min_inclusive, max_inclusive)
     }
 
     /// Rebuilds zone map from current values.
@@ -1048,11 +1094,16 @@ impl<Id: EntityId> PropertyColumn<Id> {
             // Update min
             match &zone_map.min {
                 None => zone_map.min = Some(value.clone()),
-                Some(current) => match compare_values(value, current) {
-                    Some(Ordering::Less) => zone_map.min = Some(value.clone()),
-                    Some(_) => {}
-                    None => mixed = true,
-                },
+                Some(current) => {
+                    if std::mem::discriminant(value) != std::mem::discriminant(current) {
+                        mixed = true;
+                    }
+                    match compare_values(value, current) {
+                        Some(Ordering::Less) => zone_map.min = Some(value.clone()),
+                        Some(_) => {}
+                        None => mixed = true,
+                    }
+                }
             }
 
             // Update max
